@@ -3,9 +3,9 @@ CONSTANTS
   NSet = {1, 2, 3}
   MaxZ = 3
   Modes = {"default", "zone"}
-  MinHedge = {0, 1, 3}
-  Terminals = {TRUE, FALSE}
-  NoCancels = {TRUE, FALSE}
+  MinHedge = {0, 3}
+  Terminals = {TRUE}
+  NoCancels = {TRUE}
 SPECIFICATION Spec
 PROPERTIES Termination
 INVARIANTS TypeOK OnlySuccessful QuorumBacked ErrWhenExceeded AtMostOneCall Minimised CleanupSafe CleanupExactlyOnce UnusedCancelled ReturnedNotCancelled PlainAllCancelled CancelJustified
